@@ -44,7 +44,10 @@ if SYMBOLIC:
     _orig_fork_parallel = _ss0.StateSpace.fork_parallel
 
     def _fork_parallel(self, false_probability, desc=""):
-        if isinstance(desc, str) and desc.startswith("premature realize"):
+        # "premature realize <arg>": concretise an argument early; "shortcircuit <fn>": replace a call to an annotated
+        # function by an arbitrary value of its return type and reconcile later.  Both are parallel alternatives to
+        # the plain symbolic execution, which alone already covers the node.
+        if isinstance(desc, str) and (desc.startswith("premature realize") or desc.startswith("shortcircuit")):
             return False
         return _orig_fork_parallel(self, false_probability, desc)
 
